@@ -255,7 +255,7 @@ func worldOpts(t cs.Src) cs.WorldOpts {
 
 func TestC12History(t *testing.T) {
 	rec := ev.New(t, "C12")
-	nblocks := 24
+	nblocks := 20
 	if s := os.Getenv("VERIF_C12_BLOCKS"); s != "" {
 		fmt.Sscan(s, &nblocks)
 	}
@@ -269,6 +269,10 @@ func TestC12History(t *testing.T) {
 		}
 		if ev.Open("KF-C12-slash-delegate-tallies") {
 			opts.NoDelegateRestake = true
+			opts.OnExclude = rec.Exclude
+		}
+		if ev.Open("KF-C12-dao-percent-zero") {
+			opts.NoDaoZero = true
 			opts.OnExclude = rec.Exclude
 		}
 		w, err := cs.NewWorld(src, opts)
